@@ -167,7 +167,8 @@ def rem(a, b):
         return const(0)
     if is_const(a) and is_const(b) and b[1] != 0:
         return const(a[1] % b[1])
-    return root(('rem', a, b))
+    # one representation of the remainder: a % b  ==  a - (a / b) * b
+    return sub(a, mul(div(a, b), b))
 
 
 # ------------------------------------------------------------------ booleans
@@ -184,14 +185,33 @@ def le0(a):
     return ('le0', a)
 
 
+def known_nonneg(a, fuel=3):
+    """a form that is >= 0 for every valuation: non-negative coefficients over non-negative roots, possibly plus
+    multiples of remainders  x - (x / b) * b"""
+    a = as_lin(a)
+    if a[1] >= 0 and all(c >= 0 for _, c in a[2]):
+        return True
+    if fuel <= 0:
+        return False
+    for r, c in a[2]:
+        if c < 0 and isinstance(r, tuple) and r and r[0] == 'mul':
+            for f, g in ((r[1], r[2]), (r[2], r[1])):
+                q = single_root(as_lin(f))
+                if isinstance(q, tuple) and q and q[0] == 'div' and as_lin(q[2]) == as_lin(g):
+                    rest = sub(a, scale(sub(as_lin(q[1]), root(r)), -c))      # a = rest + (-c) * (x - (x/b)*b)
+                    if known_nonneg(rest, fuel - 1):
+                        return True
+    return False
+
+
 def eq0(a):
     a = as_lin(a)
     if is_const(a):
         return TRUE if a[1] == 0 else FALSE
-    # every root is a non-negative integer: a form with non-negative coefficients and constant is zero iff it is <= 0
-    if a[1] >= 0 and all(c >= 0 for _, c in a[2]):
+    # every root is a non-negative integer: a form that is known to be >= 0 is zero iff it is <= 0
+    if known_nonneg(a):
         return le0(a)
-    if a[1] <= 0 and all(c <= 0 for _, c in a[2]):
+    if known_nonneg(neg(a)):
         return le0(neg(a))
     # normalise sign: first root coefficient positive
     if a[2] and a[2][0][1] < 0:
@@ -310,6 +330,9 @@ def ind(b):
         return const(1)
     if b == FALSE:
         return const(0)
+    nb = tnot(b)
+    if key(nb) < key(b):
+        return sub(const(1), root(('ind', nb)))     # one orientation per condition: [c] = 1 - [!c]
     return root(('ind', b))
 
 
@@ -342,6 +365,22 @@ def ite(c, t, e):
         nc = tnot(c)
         if nc == le0(sub(const(1), d2)) or nc == le0(neg(d2)):
             return add(t, pos(d2))
+        # branches that differ by a constant k:  if c {e + k} else {e}  ==  e + k * [c]
+        if is_const(d) and d[1] != 0:
+            return add(e, scale(ind(c), d[1]))
+        # if x >= 1 {x * y} else {0}  ==  x * y   (x is a non-negative integer)
+        if e == const(0):
+            r = single_root(t)
+            if isinstance(r, tuple) and r and r[0] == 'mul':
+                for f in (r[1], r[2]):
+                    if c == le0(sub(const(1), as_lin(f))):
+                        return t
+        if t == const(0):
+            r = single_root(e)
+            if isinstance(r, tuple) and r and r[0] == 'mul':
+                for f in (r[1], r[2]):
+                    if c == le0(as_lin(f)):
+                        return e
         # if t <= e {t} else {e}  (or t < e)  is the minimum of the two
         if c == le0(d) or c == le0(add(d, const(1))):
             return tmin(t, e)
@@ -366,6 +405,12 @@ def fld(base, name):
                 return v
     if isinstance(base, tuple) and base and base[0] == 'tup' and name.isdigit():
         return base[1][int(name)]
+    if isinstance(base, tuple) and base and base[0] == 'upd':
+        # a field of a copy-with-update: the updated value, or the field of the original
+        for n, v in base[2]:
+            if n == name:
+                return v
+        return fld(base[1], name)
     return ('f', unroot(base), name)
 
 
